@@ -24,6 +24,13 @@
 
 #include "chaiscript_defines.hpp"
 
+#if defined(CHAISCRIPT_VERIF) && !defined(CHAISCRIPT_NO_THREADS)
+// Verification seam: mutex types that report every acquisition/release to an
+// external deterministic scheduler. The header is supplied by the verification
+// harness on the include path; it is never used in normal builds.
+#include <chaiscript_verif_sync.hpp>
+#endif
+
 /// \file
 ///
 /// This file contains code necessary for thread support in ChaiScript.
@@ -47,11 +54,17 @@ namespace chaiscript::detail::threading {
   template<typename T>
   using lock_guard = std::lock_guard<T>;
 
+#ifndef CHAISCRIPT_VERIF
   using std::shared_mutex;
 
   using std::mutex;
 
   using std::recursive_mutex;
+#else
+  using shared_mutex = ::chaiscript_verif::shared_mutex;
+  using mutex = ::chaiscript_verif::mutex;
+  using recursive_mutex = ::chaiscript_verif::recursive_mutex;
+#endif
 
   /// Typesafe thread specific storage. If threading is enabled, this class uses a mutex protected map. If
   /// threading is not enabled, the class always returns the same data, regardless of which thread it is called from.
